@@ -162,18 +162,19 @@ func GaloisElementsForPack(params ParameterProvider, logGap int) (galEls []uint6
 		panic(fmt.Errorf("cannot GaloisElementsForPack: logGap > logN || logGap < 0"))
 	}
 
-	galEls = make([]uint64, 0, logGap)
-	for i := 0; i < logGap; i++ {
-		galEls = append(galEls, p.GaloisElement(1<<i))
+	if p.RingType() != ring.Standard {
+		panic("cannot GaloisElementsForPack: invalid ring type")
 	}
 
-	switch p.RingType() {
-	case ring.Standard:
-		if logGap == p.LogN() {
+	// Pack runs the steps i = LogN-logGap, ..., LogN-1 and applies at step i the automorphism
+	// X -> X^{5^{2^{i-1}}} (X -> X^{-1} if i = 0).
+	galEls = make([]uint64, 0, logGap)
+	for i := p.LogN() - logGap; i < p.LogN(); i++ {
+		if i == 0 {
 			galEls = append(galEls, p.GaloisElementOrderTwoOrthogonalSubgroup())
+		} else {
+			galEls = append(galEls, p.GaloisElement(1<<(i-1)))
 		}
-	default:
-		panic("cannot GaloisElementsForPack: invalid ring type")
 	}
 
 	return
